@@ -1,7 +1,7 @@
 //! Batch driver: runs every case of a generated batch on generated inputs, under all monitors,
 //! and prints JSON lines (`V` violation, `H` harness problem, `S` statistics).
 
-use crate::compare::{exp_elements, first_divergence, model_free, obs_elements, El, Obs, SpecInfo};
+use crate::compare::{exp_elements, first_divergence, model_free, obs_elements, El, Obs, Oracle, RuleMatch, SpecInfo};
 use crate::{
     set_action_budget, set_use_text, BoxLex, CaseEntry, CountIter, Factory, St, ACTION_BUDGET_MSG, READ_BUDGET_MSG,
 };
@@ -390,6 +390,49 @@ fn all_rules_log(spec: &Spec) -> bool {
     spec.all_rules().all(|(_, r)| r.act.logs())
 }
 
+/// The reference model answering the classifier's questions about observed behaviour.
+struct RefOracle<'a> {
+    c: &'a mut Compiled,
+    input: &'a [char],
+    byte2pos: std::collections::HashMap<usize, usize>,
+}
+
+impl<'a> Oracle for RefOracle<'a> {
+    fn rule_match(&mut self, rule: u32, start: usize, end: usize) -> RuleMatch {
+        for set in self.c.sets.iter() {
+            for r in set.rules.iter() {
+                if r.id == rule {
+                    if start > self.input.len() || end > self.input.len() || end < start {
+                        return RuleMatch::default();
+                    }
+                    let ends = vmodel::matcher::ends(&r.re, &r.env, self.input, start, false);
+                    let ctx_ok = match &r.ctx {
+                        None => true,
+                        Some(cx) => vmodel::matcher::ctx_ok(cx, &r.env, self.input, end),
+                    };
+                    return RuleMatch {
+                        regex_plain: ends.contains(&(end, false)),
+                        regex_eoi: ends.contains(&(end, true)),
+                        has_ctx: r.ctx.is_some(),
+                        ctx_ok,
+                    };
+                }
+            }
+        }
+        RuleMatch::default()
+    }
+    fn select(&mut self, set: usize, pos: usize) -> Option<(u32, usize)> {
+        if set >= self.c.sets.len() || pos > self.input.len() {
+            return None;
+        }
+        let sc = self.c.scan(set, self.input, pos, false);
+        sc.best.map(|(len, _via, ri)| (self.c.sets[set].rules[ri].id, pos + len))
+    }
+    fn pos_of_byte(&self, byte: usize) -> Option<usize> {
+        self.byte2pos.get(&byte).copied()
+    }
+}
+
 /// Reference history with resolution of legitimate ambiguity: returns the history that agrees
 /// with the observation if some choice vector does, otherwise the one diverging latest.
 fn reference_for(
@@ -414,7 +457,18 @@ fn reference_for(
             harness.extend(rr.cross_check_failures.drain(..));
         }
         let exp = exp_elements(&h);
-        let d = first_divergence(obs_els, &exp, info);
+        drop(rr);
+        let d = {
+            let mut byte2pos = std::collections::HashMap::new();
+            let mut b = 0usize;
+            for (i, ch) in input.iter().enumerate() {
+                byte2pos.insert(b, i);
+                b += ch.len_utf8();
+            }
+            byte2pos.insert(b, input.len());
+            let mut orc = RefOracle { c: &mut *c, input, byte2pos };
+            first_divergence(obs_els, &exp, info, &mut orc)
+        };
         let better = match (&best, &d) {
             (None, _) => true,
             (Some((_, Some(bd))), Some(nd)) => nd.index > bd.index,
